@@ -102,7 +102,8 @@ Section Deser.
   Definition in_range1 (s : state) {V} (t : list (N * V)) : bool :=
     forallb (fun p => fst p <? lenN (graphs s)) t.
   Definition in_range2 (s : state) {V} (t : list ((N * N) * V)) : bool :=
-    forallb (fun p => (fst (fst p) <? lenN (graphs s)) && (snd (fst p) <? ncount s (fst (fst p)))) t.
+    forallb (fun p => if fst (fst p) <? lenN (graphs s) then snd (fst p) <? ncount s (fst (fst p))
+                      else false) t.   (* graph id checked before the node list is indexed *)
 
   (* graphs.rs:3859-3929 recover_original_context *)
   Definition deser (x : sctx) : result state :=
